@@ -233,7 +233,7 @@ class CliSim:
                         inv = dict(copy.deepcopy(inv), faults=[], rerun=True)
                 invs.append(inv)
             lts.append({'invocations': invs, 'subprocess': rng.random() < (0.02 if not big else 0.01)})
-        return {'engine': self.name, 'world': world, 'lifetimes': lts}
+        return {'engine': self.name, 'world': world, 'lifetimes': lts, 'env': {'file_cache_maxsize': rng.choice([1, 2, 128, 128])}}
 
     @staticmethod
     def _fmt(rng, v):
@@ -441,7 +441,7 @@ class CliSim:
                 groups.append(cur)
             k = 0
             for group in groups:
-                res = lifetimes.run_lifetime(_cli_lifetime, group, scratch, f'lt{li}g{k}', timeout=240)
+                res = lifetimes.run_lifetime(_cli_lifetime, group, scratch, f'lt{li}g{k}', (plan.get('env') or {}).get('file_cache_maxsize', 128), timeout=240)
                 if res['status'] in ('harness_error', 'timeout'):
                     out.harness_error = f'lifetime {li}: {res["error"]}'
                     return
@@ -615,8 +615,11 @@ class _TempfileShim:
         return getattr(tempfile, name)
 
 
-def _cli_lifetime(ctx, group, scratch, tag):
+def _cli_lifetime(ctx, group, scratch, tag, file_cache_maxsize=128):
     import pathlib
+
+    import xarray
+    xarray.set_options(file_cache_maxsize=file_cache_maxsize)
 
     import emsarray.cli
     import emsarray.cli.commands.clip as clip_cmd
